@@ -3,6 +3,8 @@ from common import *
 OBLIGATIONS = [
     ob('C07.mean.real', 'verif_frag::mean::c07_mean_real', 'for all sum < 256 and 1 <= count <= 16: get_mean tail expression == sum as f64 / count as f64 (AVG is not truncated)', units=['mean'], complete=False, bound='sum < 256, 1 <= count <= 16 (symbolic f64 division does not terminate in CBMC on larger domains)'),
 ]
+OBLIGATIONS.append(dict(id='C07.sum', engine='V', verus_fn='get_buffer_sum', verus_file='sum', label='C07.sum', complete=True, bound=None, units=[], harness='verus:get_buffer_sum', tier='quick',
+    desc='real get_buffer_sum (extracted verbatim), for any number of buffered rows: the result is the mathematical sum over the rows of the number the key column denotes (0 when absent or not a number); no overflow given that the sum fits usize'))
 CANARIES = []
 ASSUMPTIONS = ['bounded operand domain for the AVG division (see obligation)']
-NOT_COVERED = ['MIN/MAX/COUNT arms, variance/stddev (iterator adapters, f64 loops over HashMap rows)', 'the buffering of rows', 'WHERE-before-aggregate']
+NOT_COVERED = ['MIN/MAX/COUNT arms, variance/stddev (iterator adapters, f64 loops over HashMap rows)', 'that the SUM of the property is an i64 sum of the column: get_buffer_sum parses usize, so negative values are skipped', 'the buffering of rows', 'WHERE-before-aggregate']
